@@ -7801,6 +7801,9 @@ class Subpath:
         if isinstance(other, Matrix):
             for e in self:
                 e *= other
+            # The cached lengths of the path belong to the old segments.
+            self._path._length = None
+            self._path._lengths = None
         return self
 
     def __mul__(self, other):
